@@ -127,3 +127,41 @@ def mon_c03(world, ev, before, rec, after):
                         'sha': sha, 'status': st, 'merged_prs': merged, 'waived': waived})
     return out
 
+
+
+def mon_c06(world, ev, before, rec, after):
+    """System-level clause of C06: a pull request passes the build gate (is queued or merged directly) only if
+    every integration tip - the source branch for the first target, the w/ branch for each other one - had a
+    SUCCESSFUL status under the build key when the job ran, unless the check was waived or no key is set."""
+    cfg = world.cfg
+    if not cfg['build_key'] or rec.get('status') not in ('Queued', 'SuccessMessage'):
+        return []
+    if ev.get('e') not in ('job_pr', 'job_commit'):
+        return []
+    if 'bypass_build_status' in cfg.get('cmd_line_options', []):
+        return []
+    st_b = {p['id']: p for p in before['prs']}
+    # the pull request this evaluation was about: the user PR whose state/queue changed
+    cands = []
+    for p in after['prs']:
+        if p['author'] == ROBOT or p['id'] not in st_b:
+            continue
+        qb = [n for n in before['refs'] if n.startswith('q/w/%d/' % p['id'])]
+        qa = [n for n in after['refs'] if n.startswith('q/w/%d/' % p['id'])]
+        if (rec['status'] == 'Queued' and qa and not qb) or \
+           (rec['status'] == 'SuccessMessage' and st_b[p['id']]['state'] == 'OPEN' and p['state'] == 'MERGED'):
+            cands.append(p)
+    out = []
+    for p in cands:
+        if bypassing_prs(world, [p['id']]):
+            continue
+        tips = [p['src']] + sorted(n for n in before['refs'] if n.startswith('w/') and n.endswith('/' + p['src']))
+        for n in tips:
+            sha = before['refs'].get(n)
+            if sha is None:
+                continue
+            st = before['builds'].get('%s|%s' % (sha, cfg['build_key']), 'NOTSTARTED')
+            if st != 'SUCCESSFUL':
+                out.append({'what': 'pull request passed the build gate with a non-green integration tip',
+                            'pr': p['id'], 'tip': n, 'sha': sha, 'status': st, 'outcome': rec['status']})
+    return out
